@@ -529,13 +529,26 @@ Proof.
   eapply peq_trans; [apply shiftmul_mullin|]. apply (adjoint_cong _ _ (Jsum_mulaff l (dot l c))), IH.
 Qed.
 
+(* prod_i (Q_i . y + d_i)^(m_i) g *)
+Definition affpow (Q : mat) (d : axis -> F) (m : mon) (g : poly3) : poly3 :=
+  powop (mulaff (Q AX) (d AX)) (expo AX m) (powop (mulaff (Q AY) (d AY)) (expo AY m)
+    (powop (mulaff (Q AZ) (d AZ)) (expo AZ m) g)).
+
+Lemma affpow_cong Q d m g g' : peq g g' -> peq (affpow Q d m g) (affpow Q d m g').
+Proof.
+  intro H. unfold affpow.
+  apply (adjoint_cong _ _ (Jsum_powop _ _ (Jsum_mulaff _ _) _)).
+  apply (adjoint_cong _ _ (Jsum_powop _ _ (Jsum_mulaff _ _) _)).
+  apply (adjoint_cong _ _ (Jsum_powop _ _ (Jsum_mulaff _ _) _)). exact H.
+Qed.
+Lemma affpow_ext Q d d' m g : (forall i, d i = d' i) -> affpow Q d m g = affpow Q d' m g.
+Proof. intro H. unfold affpow. now rewrite (H AX), (H AY), (H AZ). Qed.
+
 (* (Q (y + c))^a g = prod_i (Q_i . y + Q_i . c)^(a_i) g, for ANY matrix Q *)
 Theorem shiftmul_subst_mon (Q : mat) c a g :
-  peq (shiftmul (subst_mon Q a) c g)
-      (powop (mulaff (Q AX) (dot (Q AX) c)) (expo AX a) (powop (mulaff (Q AY) (dot (Q AY) c)) (expo AY a)
-         (powop (mulaff (Q AZ) (dot (Q AZ) c)) (expo AZ a) g))).
+  peq (shiftmul (subst_mon Q a) c g) (affpow Q (fun i => dot (Q i) c) a g).
 Proof.
-  unfold subst_mon.
+  unfold subst_mon, affpow.
   eapply peq_trans; [apply shiftmul_powop|].
   apply (adjoint_cong _ _ (Jsum_powop _ _ (Jsum_mulaff _ _) _)).
   eapply peq_trans; [apply shiftmul_powop|].
@@ -545,13 +558,10 @@ Proof.
   intro J. rewrite Jsum_shiftmul. unfold one3, mono3, smono. cbn [Jsum expo fst snd powop]. ring.
 Qed.
 
-(* (f o R) for f = (y + c)^m g *)
-Theorem subst_smono R c m g :
-  peq (subst R (smono c m g))
-      (powop (mulaff (R AX) (c AX)) (expo AX m) (powop (mulaff (R AY) (c AY)) (expo AY m)
-         (powop (mulaff (R AZ) (c AZ)) (expo AZ m) (subst R g)))).
+(* (f o R) for f = (y + c)^m g :  prod_i (R_i . y + c_i)^(m_i) (g o R) *)
+Theorem subst_smono R c m g : peq (subst R (smono c m g)) (affpow R c m (subst R g)).
 Proof.
-  unfold smono.
+  unfold smono, affpow.
   assert (P : forall i d n f f', peq (subst R f) f' ->
             peq (subst R (powop (plin3 i d) n f)) (powop (mulaff (R i) d) n f')).
   { intros i d n f f' H. induction n as [|n IH]; cbn [powop]; [exact H|].
@@ -610,5 +620,87 @@ Qed.
 
 Lemma factors_E3 f gx gy gz : factors f gx gy gz -> E3 f = E K v gx * E K v gy * E K v gz.
 Proof. intro H. exact (H 0%nat 0%nat 0%nat). Qed.
+
+
+(* ------------------------------------------------------------------ *)
+(* 7. two- and three-centre products under a rotation of the centres.
+      cA, cB (, cC) are the displacements P - A, P - B (, P - C) of the original system, cA' = R cA ... those of
+      the rotated one; Q = R^T.  [subst_mon Q a] is (R^T u)^a multiplied out in monomials of u: summing against
+      its entries is the contraction with the representation matrix of R on the monomials of degree |a|.
+      Needs the COLUMNS of R orthonormal (R^T R = 1). *)
+Lemma dot_transpose_rot (R : mat) (c c' : axis -> F) :
+  orth_rows (transpose R) -> (forall i, c' i = dot (R i) c) ->
+  forall i, dot (transpose R i) c' = c i.
+Proof.
+  intros HO Hc i. unfold dot, sum3, transpose. rewrite (Hc AX), (Hc AY), (Hc AZ). unfold dot, sum3.
+  pose proof (HO i AX) as H1. pose proof (HO i AY) as H2. pose proof (HO i AZ) as H3.
+  unfold sum3, transpose in H1, H2, H3.
+  transitivity ((R AX i * R AX AX + R AY i * R AY AX + R AZ i * R AZ AX) * c AX
+                + (R AX i * R AX AY + R AY i * R AY AY + R AZ i * R AZ AY) * c AY
+                + (R AX i * R AX AZ + R AY i * R AY AZ + R AZ i * R AZ AZ) * c AZ); [ring|].
+  rewrite H1, H2, H3. unfold delta3. destruct i; cbn [axis_eqb]; ring.
+Qed.
+
+(* one more shifted factor, summed against the entries of (R^T u)^a *)
+Lemma rotated_factor (R : mat) (c c' : axis -> F) a g g' :
+  orth_rows (transpose R) -> (forall i, c' i = dot (R i) c) ->
+  peq g' (subst (transpose R) g) ->
+  peq (shiftmul (subst_mon (transpose R) a) c' g') (subst (transpose R) (smono c a g)).
+Proof.
+  intros HO Hc Hg.
+  eapply peq_trans; [apply shiftmul_subst_mon|].
+  rewrite (affpow_ext _ _ c a g' (dot_transpose_rot R c c' HO Hc)).
+  eapply peq_trans; [apply affpow_cong, Hg|]. apply peq_sym, subst_smono.
+Qed.
+
+Lemma Jsum_smono_shiftmul J c a h d g :
+  Jsum (fun b' => Jsum J (smono c a (smono d b' g))) h = Jsum J (smono c a (shiftmul h d g)).
+Proof.
+  destruct (smono_adjoint c a) as [opT A]. rewrite A, Jsum_shiftmul. apply Jsum_ext. intro b'.
+  now rewrite A.
+Qed.
+
+Theorem rotated_product2_E3 (R : mat) (cA cB cA' cB' : axis -> F) (a b : mon) :
+  orth_rows (transpose R) ->
+  (forall i, cA' i = dot (R i) cA) -> (forall i, cB' i = dot (R i) cB) ->
+  Jsum (fun a' => Jsum (fun b' => E3 (smono cA' a' (smono cB' b' one3)))
+                       (subst_mon (transpose R) b)) (subst_mon (transpose R) a)
+  = E3 (smono cA a (smono cB b one3)).
+Proof.
+  intros HO HA HB. unfold E3.
+  rewrite (Jsum_ext _ (fun a' => Jsum M3 (smono cA' a' (shiftmul (subst_mon (transpose R) b) cB' one3))))
+    by (intro a'; apply Jsum_smono_shiftmul).
+  rewrite <- Jsum_shiftmul.
+  fold (E3 (shiftmul (subst_mon (transpose R) a) cA' (shiftmul (subst_mon (transpose R) b) cB' one3))).
+  fold (E3 (smono cA a (smono cB b one3))).
+  rewrite <- (E3_subst_orth (transpose R) HO (smono cA a (smono cB b one3))).
+  apply E3_peq. apply (rotated_factor R cA cA' a _ _ HO HA).
+  apply (rotated_factor R cB cB' b _ _ HO HB). apply peq_sym, subst_one3.
+Qed.
+
+Theorem rotated_product3_E3 (R : mat) (cC cA cB cC' cA' cB' : axis -> F) (k a b : mon) :
+  orth_rows (transpose R) ->
+  (forall i, cC' i = dot (R i) cC) -> (forall i, cA' i = dot (R i) cA) -> (forall i, cB' i = dot (R i) cB) ->
+  Jsum (fun k' => Jsum (fun a' => Jsum (fun b' => E3 (smono cC' k' (smono cA' a' (smono cB' b' one3))))
+                       (subst_mon (transpose R) b)) (subst_mon (transpose R) a)) (subst_mon (transpose R) k)
+  = E3 (smono cC k (smono cA a (smono cB b one3))).
+Proof.
+  intros HO HC HA HB. unfold E3.
+  set (Q := transpose R).
+  assert (S1 : forall k' a', Jsum (fun b' => Jsum M3 (smono cC' k' (smono cA' a' (smono cB' b' one3)))) (subst_mon Q b)
+               = Jsum M3 (smono cC' k' (smono cA' a' (shiftmul (subst_mon Q b) cB' one3)))).
+  { intros k' a'. destruct (smono_adjoint cC' k') as [opT A].
+    rewrite A. rewrite <- Jsum_smono_shiftmul. apply Jsum_ext. intro b'. now rewrite A. }
+  rewrite (Jsum_ext _ (fun k' => Jsum M3 (smono cC' k' (shiftmul (subst_mon Q a) cA'
+             (shiftmul (subst_mon Q b) cB' one3))))).
+  2:{ intro k'. rewrite <- Jsum_smono_shiftmul. apply Jsum_ext. intro a'. apply S1. }
+  rewrite <- Jsum_shiftmul.
+  fold (E3 (shiftmul (subst_mon Q k) cC' (shiftmul (subst_mon Q a) cA' (shiftmul (subst_mon Q b) cB' one3)))).
+  fold (E3 (smono cC k (smono cA a (smono cB b one3)))).
+  rewrite <- (E3_subst_orth Q HO (smono cC k (smono cA a (smono cB b one3)))).
+  apply E3_peq. apply (rotated_factor R cC cC' k _ _ HO HC).
+  apply (rotated_factor R cA cA' a _ _ HO HA).
+  apply (rotated_factor R cB cB' b _ _ HO HB). apply peq_sym, subst_one3.
+Qed.
 
 End Poly3.
